@@ -63,8 +63,16 @@ class Denoter:
                 if isinstance(inner, Agg) and inner.name and inner.name.startswith('~'):
                     return self.denote(st, inner)
                 return self.source(st, inner, True)
-            if tag in ('collect', 'cloned'):
+            if tag == 'collect':
                 return self.denote(st, t.fields[0])
+            if tag == 'cloned':
+                out = []
+                for e in self.denote(st, t.fields[0]):
+                    v = e.val
+                    if isinstance(v, Ref):
+                        v = ex.read(e.st, v.fid, v.place)
+                    out.append(Elem(e.bucket, e.guard, v, e.st))
+                return out
             if tag == 'chain':
                 a = self.denote(st, t.fields[0])
                 b = t.fields[1]
